@@ -26,12 +26,10 @@
    tests `!= PLACEHOLDER_STR` when it reads a cell.  A cell is modelled as an [option label];
    [cell_of] performs the string test at the moment a label is stored, which is equivalent.
 
-   MALFORMED RESULTS ARE ERRORS OF THE MODEL (DESIGN section 7, C07/C08).  The last step of
-   add_mul_wallace compacts row 0 and row 1 of the reduced matrix into two numbers by SKIPPING
-   placeholders; that is only meaningful when row 0 occupies the columns 0..k and row 1 a
-   contiguous block that starts after `shift` placeholders.  The model returns
-   Err PyAssertionError otherwise ([wallace_final]); the correspondence check shows that the model
-   returns Ok wherever the implementation returns.
+   add_mul_wallace models the REPAIRED code (fixes/D27.patch): the last step reads row 0 and row 1 of
+   the reduced matrix as two numbers; the pinned code compacted them by SKIPPING placeholders, which
+   moves every gate behind an empty cell one column down (wrong products for n = 2, m >= 11); the
+   repaired code fills such a cell with a constant-false gate.
 
    LOOPS.  `while` loops run on fuel (Err OutOfFuel); the fuel given by the entry points is
    adequate for every operand width (each iteration strictly decreases the measure the fuel is
@@ -233,22 +231,32 @@ Fixpoint wallace_loop (fuel : nat) (rows : list (list cell)) : prog (list (list 
        | S f => bdo r <- wallace_round rows; wallace_loop f r
        end.
 
-(* labels_a / labels_b / shift of the last loop, with the shape check described in the header *)
+(* labels_a / labels_b / shift of the last loop (repaired, fixes/D27.patch): row 0 is read from column 0
+   to its last gate, row 1 from its first to its last gate; an empty cell in between stands for a zero bit
+   and is filled with a constant-false gate, created (once) only if there is such a cell.  [all_none r]:
+   no gate from here on, i.e. the current column is beyond `last` *)
 Fixpoint all_none (r : list cell) : bool :=
   match r with [] => true | None :: r' => all_none r' | Some _ :: _ => false end.
-Fixpoint block_then_none (r : list cell) : option (list label) :=
-  match r with
-  | Some l :: r' => option_map (cons l) (block_then_none r')
-  | _ => if all_none r then Some [] else None
-  end.
 Fixpoint leading_none (r : list cell) : nat :=
   match r with None :: r' => S (leading_none r') | _ => O end.
-
-Definition wallace_final (r0 r1 : list cell) : prog (nat * list label * list label) :=
-  match block_then_none r0, block_then_none (skipn (leading_none r1) r1) with
-  | Some la, Some lb => Ret (leading_none r1, la, lb)
-  | _, _ => Fail PyAssertionError
+Fixpoint has_gap (r : list cell) : bool :=
+  match r with
+  | [] => false
+  | c :: r' => if all_none r then false else match c with None => true | Some _ => has_gap r' end
   end.
+Fixpoint trim_fill (zero : label) (r : list cell) : list label :=
+  match r with
+  | [] => []
+  | c :: r' => if all_none r then [] else (match c with Some l => l | None => zero end) :: trim_fill zero r'
+  end.
+
+Definition wallace_final (a : list label) (r0 r1 : list cell) : prog (nat * list label * list label) :=
+  let shift := leading_none r1 in
+  let r1' := skipn shift r1 in
+  bdo zero <- (if has_gap r0 || has_gap r1'
+               then bdo a0 <- nthP a 0; gate_tt tt_false a0 a0
+               else Ret PLACEHOLDER_STR);                       (* not used *)
+  Ret (shift, trim_fill zero r0, trim_fill zero r1').
 
 Definition cell_at (rows : list (list cell)) (r col : nat) : prog label :=
   bdo row <- nthP rows r; bdo c <- nthP row col; Ret (cell_label c).
@@ -271,7 +279,7 @@ Definition add_mul_wallace (input_labels_a input_labels_b : list label) (big_end
     bdo rows' <- wallace_loop (length rows) rows;
     match rows' with
     | [r0; r1] =>
-      bdo f <- wallace_final r0 r1;
+      bdo f <- wallace_final a r0 r1;
       let '(shift, la, lb) := f in
       bdo r <- add_sum_two_numbers_with_shift shift la lb false;
       Ret (rev_if big_endian (firstn (n + m) r))
